@@ -443,11 +443,7 @@ func ruleIndexReadUnderItsLock(r *Run) {
 				if !ok || !op.lock || !op.write || op.name != "indexMu" || op.shard == nil {
 					continue
 				}
-				for _, rv := range roots(op.shard, f) {
-					if bo, ok := rv.V.(*ssa.BinOp); ok && bo.Op == token.REM {
-						sel = append(sel, bo.X)
-					}
-				}
+				sel = append(sel, shardSelectors(op, f)...)
 			}
 		}
 		if len(sel) == 0 {
